@@ -140,7 +140,8 @@ Definition sm_c06 (c : sel_case) : bool :=
   end.
 
 (* ---------------------------------------------------------------------------------- *)
-(* C07: aggregate queries (no LIMIT/OFFSET): rows as a multiset, sorted if ORDER BY     *)
+(* C07: aggregate queries (no LIMIT/OFFSET): rows as a multiset, sorted if ORDER BY;   *)
+(* an ORDER BY column that cannot be resolved in the result: a refusal, no rows          *)
 
 Definition agg_query_typed (q : select_stmt) (d : db) : bool :=
   negb (sel_limit_active q) && negb (sel_offset_active q) &&
@@ -151,23 +152,38 @@ Definition agg_query_typed (q : select_stmt) (d : db) : bool :=
 
 Definition wt_c07 (c : sel_case) : bool := let '(d, q, _) := c in agg_query_typed q d.
 
+(* some ORDER BY column is one the engine has to reject in the header of the result (unknown, or
+   unqualified and ambiguous - must_reject above): the query must be refused *)
+Definition sort_must_reject (ssl : list sortspec) (hdr : list field) : bool :=
+  existsb (fun s => must_reject (ss_key s) hdr) ssl.
+
 Definition sm_c07_with (chk : list derivedcol -> list colref -> list field -> list row -> list row -> bool)
            (c : sel_case) : bool :=
   let '(d, q, g) := c in
   if agg_query_typed q d then
-    match agg_input q d, g with
-    | Some (fs, base), GOk f r =>
-        chk (sel_list q) (sel_group q) fs base r &&
-        match out_header (sel_list q) fs with
-        | Some hdr =>
-            fields_eqb f hdr &&
-            match sem_sortkeys (sel_sort q) hdr with
-            | Some keys => sortedb keys r
-            | None => true
-            end
-        | None => true
-        end
-    | _, _ => false
+    match agg_input q d with
+    | Some (fs, base) =>
+        if match out_header (sel_list q) fs with
+           | Some hdr => sort_must_reject (sel_sort q) hdr
+           | None => false
+           end
+        then match g with GErr _ => true | _ => false end
+        else
+          match g with
+          | GOk f r =>
+              chk (sel_list q) (sel_group q) fs base r &&
+              match out_header (sel_list q) fs with
+              | Some hdr =>
+                  fields_eqb f hdr &&
+                  match sem_sortkeys (sel_sort q) hdr with
+                  | Some keys => sortedb keys r
+                  | None => true
+                  end
+              | None => true
+              end
+          | _ => false
+          end
+    | None => false
     end
   else true.
 
